@@ -1,8 +1,14 @@
 import GcArena.Proofs.Debt
+import GcArena.Proofs.MarkDebt
+import GcArena.Proofs.Sleep
 /-!
 # C09 — Pacing: debt-driven calls pay their debt, cycles complete, sleep is honoured
 
 Exact rational arithmetic (`Rat`); f64 rounding is modelled, not verified (DESIGN §9).
+
+Machinery: the accounting invariant `Acc` (Proofs/Accounting.lean, over all histories:
+`acc_run` in Proofs/AccountingRun.lean), the ρ-bound and the stop-the-world loop lemmas
+(Proofs/Pacing.lean), sleep over operation sequences (Proofs/Sleep.lean).
 -/
 namespace GcArena.C09
 
@@ -20,6 +26,23 @@ theorem collect_debt_zero (c : Ctx) (root : List Slot) (fault : TraceFault) (c' 
   have hi := hr.inv hinv
   exact doCollection_collectDebt_zero c root fault c' h hi.notDrop hi.noErr
 
+/-- `cycle_debt` returns with zero allocation debt or at its stopping phase (Sleeping, the cycle
+    finished). -/
+theorem cycle_debt_zero_or_asleep (c : Ctx) (root : List Slot) (fault : TraceFault) (c' : Ctx)
+    (hinv : CInv c root []) (h : c.doCollection root .payDebt .finishCycle fault = (c', .returned)) :
+    c'.metrics.allocationDebt = 0 ∨ c'.phase = .sleep := by
+  by_cases hs : c'.phase = .sleep
+  · exact Or.inr hs
+  · exact Or.inl (debt_zero_of_not_hasDebt _ ((doCollection_cycle_frame hinv h hs).2 rfl rfl))
+
+/-- `mark_debt` returns with zero allocation debt, or at its stopping phase (fully marked: it
+    hands out the `MarkedArena`), or it was called while Sweeping, where it does nothing at all
+    (`Stop::FullyMarked <= Stop::AtSweep`: the documented behaviour, C08.mark_from_sweeping). -/
+theorem mark_debt_zero_or_marked (c : Ctx) (root : List Slot) (fault : TraceFault) (c' : Ctx)
+    (hinv : CInv c root []) (h : c.doCollection root .payDebt .fullyMarked fault = (c', .returned)) :
+    c'.metrics.allocationDebt = 0 ∨ Arena.isMarked c' = true ∨ (c.phase = .sweep ∧ c' = c) :=
+  doCollection_markDebt hinv h
+
 /-- The debt is never negative and is zero for an empty arena (shared with C10). -/
 theorem debt_nonneg (m : Metrics) : 0 ≤ m.allocationDebt := GcArena.debt_nonneg m
 
@@ -33,42 +56,207 @@ theorem empty_arena_never_collects (c : Ctx) (root : List Slot) (stop : Stop) (f
     simp [Metrics.hasDebt, Metrics.allocationDebt, h]
   simp [Ctx.doCollection, this]
 
+/-- The invariant of a run state outside callbacks, in the form the collector lemmas take. -/
+theorem run_cinv (n : Nat) (ops : List Op) (halive : ((Arena.new n).run ops).alive = true)
+    (hcb : ((Arena.new n).run ops).cb = none) :
+    CInv ((Arena.new n).run ops).ctx ((Arena.new n).run ops).root [] := by
+  have hi := inv_run n ops halive
+  have := hi.cinv; rw [hi.cbTemps hcb] at this; exact this
+
+/-! ### Stop-the-world pacing -/
+
 /-- Full statement of the stop-the-world clause as the property gives it.  It is **false** of the
     model and of the implementation in exactly the corner above (replay:
-    corpus/C09-stw-empty-arena.ops; the finding is listed in known_findings.txt). -/
-def stop_the_world_statement : Prop :=
+    corpus/C09-stw-empty-arena.ops; the finding is listed in known_findings.txt):
+    `stop_the_world_claim_false`. -/
+def stop_the_world_claim : Prop :=
   ∀ (c : Ctx) (root : List Slot) (c' : Ctx), CInv c root [] →
     c.metrics.pacing.markFactor = 0 → c.metrics.pacing.traceFactor = 0 → c.metrics.pacing.keepFactor = 0 →
     c.metrics.pacing.dropFactor = 0 → c.metrics.pacing.freeFactor = 0 → 0 < c.metrics.allocationDebt →
     c.doCollection root .payDebt .full none = (c', .returned) → c'.phase = .sleep
 
-/-- What holds instead (statement; proof pending the metrics frame lemmas of the accounting
-    development): it returns Sleeping, or the arena holds no allocation any more. -/
+/-- What holds instead: it returns Sleeping, or the arena holds no allocation any more. -/
 def stop_the_world_partial_statement : Prop :=
   ∀ (c : Ctx) (root : List Slot) (c' : Ctx), CInv c root [] →
     c.metrics.pacing.markFactor = 0 → c.metrics.pacing.traceFactor = 0 → c.metrics.pacing.keepFactor = 0 →
     c.metrics.pacing.dropFactor = 0 → c.metrics.pacing.freeFactor = 0 → 0 < c.metrics.allocationDebt →
     c.doCollection root .payDebt .full none = (c', .returned) → c'.phase = .sleep ∨ c'.metrics.totalGcs = 0
 
-/-- ρ-bound (statement; proof pending the accounting invariant M1/M2). -/
-def rho_bound_statement : Prop :=
-  ∀ (ρ : Rat) (c c' : Ctx) (root : List Slot) (H A : Nat),
-    0 ≤ c.metrics.pacing.markFactor → 0 ≤ c.metrics.pacing.traceFactor → 0 ≤ c.metrics.pacing.keepFactor →
-    0 ≤ c.metrics.pacing.dropFactor → 0 ≤ c.metrics.pacing.freeFactor →
-    c.metrics.pacing.markFactor + c.metrics.pacing.traceFactor + c.metrics.pacing.keepFactor ≤ ρ →
-    c.metrics.pacing.dropFactor + c.metrics.pacing.freeFactor ≤ ρ →
-    c.metrics.pacing.markFactor + c.metrics.pacing.dropFactor + c.metrics.pacing.keepFactor ≤ ρ → ρ < 1 →
-    CInv c root [] → c.phase ≠ .sleep → H + A = c.metrics.totalGcs + c.metrics.freed →
-    A = c.metrics.allocated → 0 < c.metrics.cycleDebits - (A : Rat) →
-    c.doCollection root .payDebt .finishCycle none = (c', .returned) → c'.phase ≠ .sleep →
-    (A : Rat) * (1 - ρ) < ρ * (H : Rat)
+/-- **Stop-the-world, `collect_debt`**: with all five work factors zero, a call made with positive
+    debt does not return until the collector is Sleeping again — unless the sweep emptied the
+    arena. -/
+theorem stop_the_world_partial : stop_the_world_partial_statement := by
+  intro c root c' hinv h1 h2 h3 h4 h5 hd hr
+  exact doCollection_stw hinv ⟨h1, h2, h3, h4, h5⟩ hd hr
 
-/-- Sleep is honoured (statement; proof pending). -/
-def sleep_honoured_statement : Prop :=
-  ∀ (c : Ctx) (root : List Slot) (stop : Stop), c.phase = .sleep → c.metrics.artificial = 0 →
+/-- The same for every fault position, and for `cycle_debt`. -/
+theorem stop_the_world_any (c : Ctx) (root : List Slot) (fault : TraceFault) (c' : Ctx)
+    (hinv : CInv c root []) (hz : ZeroWork c.metrics.pacing) (hd : 0 < c.metrics.allocationDebt) :
+    (c.doCollection root .payDebt .full fault = (c', .returned) →
+      c'.phase = .sleep ∨ c'.metrics.totalGcs = 0) ∧
+    (c.doCollection root .payDebt .finishCycle fault = (c', .returned) →
+      c'.phase = .sleep ∨ c'.metrics.totalGcs = 0) :=
+  ⟨doCollection_stw hinv hz hd, doCollection_stw_cycle hinv hz hd⟩
+
+/-- One unreachable allocation under `Pacing::STOP_THE_WORLD`, fully marked, the sweep about to
+    start. -/
+def lastOne : List Op := [
+  .setPacing Pacing.stopTheWorld,
+  .enter .mutate, .alloc true [none], .leave,
+  .collect .finishMarking .sweep none (some [.wake, .markStep none, .markBreak, .toSweep]) ]
+
+theorem lastOne_metrics : ((Arena.new 1).run lastOne).ctx.metrics =
+    { pacing := Pacing.stopTheWorld, totalGcs := 1, wakeup := 0, artificial := 0, allocated := 1,
+      dropped := 0, freed := 0, marked := 0, traced := 0, remembered := 0, underflow := false } := by rfl
+
+theorem lastOne_debt : 0 < ((Arena.new 1).run lastOne).ctx.metrics.allocationDebt := by
+  rw [lastOne_metrics]
+  unfold Metrics.allocationDebt Metrics.cycleDebits Metrics.cycleCredits Pacing.stopTheWorld
+  simp only
+  grind
+
+/-- The full stop-the-world clause is false: from `lastOne`, `collect_debt` (positive debt, all
+    work factors zero) sweeps the only allocation away and returns **Sweeping**. -/
+theorem stop_the_world_claim_false : ¬ stop_the_world_claim := by
+  intro h
+  have h0 := run_cinv 1 lastOne (by decide) (by decide)
+  have hd := lastOne_debt
+  have hcall := doCollection_sweep_last (c := ((Arena.new 1).run lastOne).ctx)
+    (root := ((Arena.new 1).run lastOne).root) (stop := .full) (fault := none)
+    (by decide) (by decide) (by decide) (by simpa [Metrics.hasDebt] using hd) (by decide)
+  have := h _ _ _ h0 (by rw [lastOne_metrics]; rfl) (by rw [lastOne_metrics]; rfl)
+    (by rw [lastOne_metrics]; rfl) (by rw [lastOne_metrics]; rfl) (by rw [lastOne_metrics]; rfl) hd hcall
+  revert this
+  decide
+
+/-! ### The ρ-bound -/
+
+/-- In every state of every history, outside callbacks: the credits of the running cycle are at
+    most `ρ ×` (allocations held + allocations this cycle has released) — for pacing factors whose
+    per-object work paths each sum to at most `ρ` (`RhoPacing`, Proofs/Pacing.lean). -/
+theorem credits_bounded (n : Nat) (ops : List Op) (ρ : Rat)
+    (halive : ((Arena.new n).run ops).alive = true) (hcb : ((Arena.new n).run ops).cb = none)
+    (hp : RhoPacing ((Arena.new n).run ops).ctx.metrics.pacing ρ) :
+    ((Arena.new n).run ops).ctx.metrics.cycleCredits ≤
+      ρ * ((((Arena.new n).run ops).ctx.metrics.totalGcs : Rat)
+            + (((Arena.new n).run ops).ctx.metrics.freed : Rat)) :=
+  credits_le hp (acc_run n ops) (run_cinv n ops halive hcb)
+
+/-- **ρ-bound.**  Take any state of any history, outside callbacks, and any split of its counters
+    `allocated = Aw + A'`, `total_gcs + freed = H + A'` (the one meant: `A'` = allocations made since
+    the cycle woke, `Aw` = allocations counted at that moment, `H` = allocations held at that
+    moment; `total_gcs + freed - allocated` is constant from wake-up to `finish_cycle`:
+    `PlainMet.ghost`, `FwdMet.ghost`, `CFrame.ghost`).  Suppose the cycle woke in debt and the debt
+    was not artificially reduced since (`0 < Aw - wakeup + artificial`), and the pacing factors'
+    per-object work paths each sum to at most `ρ`.  If a `cycle_debt` call then returns with the
+    cycle still unfinished — and the arena non-empty: known finding
+    `stw-returns-sweeping-when-arena-emptied` — then `A' (1 - ρ) < ρ H`.
+
+    (`ρ < 1` is not needed for this form; it is for the quotient form `rho_bound_quotient`.  The
+    state may even be asleep: the call then wakes it.) -/
+theorem rho_bound (n : Nat) (ops : List Op) (ρ : Rat) (Aw H A' : Nat) (fault : TraceFault) (c' : Ctx)
+    (halive : ((Arena.new n).run ops).alive = true) (hcb : ((Arena.new n).run ops).cb = none)
+    (hp : RhoPacing ((Arena.new n).run ops).ctx.metrics.pacing ρ)
+    (hA : Aw + A' = ((Arena.new n).run ops).ctx.metrics.allocated)
+    (hH : H + A' = ((Arena.new n).run ops).ctx.metrics.totalGcs + ((Arena.new n).run ops).ctx.metrics.freed)
+    (hwoke : 0 < (Aw : Rat) - ((Arena.new n).run ops).ctx.metrics.wakeup
+                + ((Arena.new n).run ops).ctx.metrics.artificial)
+    (hr : ((Arena.new n).run ops).ctx.doCollection ((Arena.new n).run ops).root .payDebt .finishCycle fault
+            = (c', .returned))
+    (hns : c'.phase ≠ .sleep) (hne : c'.metrics.totalGcs ≠ 0) :
+    (A' : Rat) * (1 - ρ) < ρ * (H : Rat) :=
+  rho_bound_ctx (run_cinv n ops halive hcb) (acc_run n ops) hp hA hH hwoke hr hns hne
+
+/-- … in the property's form: fewer than `ρ H / (1 - ρ)` allocations were made since it woke. -/
+theorem rho_bound_quotient (n : Nat) (ops : List Op) (ρ : Rat) (Aw H A' : Nat) (fault : TraceFault)
+    (c' : Ctx) (hρ : ρ < 1)
+    (halive : ((Arena.new n).run ops).alive = true) (hcb : ((Arena.new n).run ops).cb = none)
+    (hp : RhoPacing ((Arena.new n).run ops).ctx.metrics.pacing ρ)
+    (hA : Aw + A' = ((Arena.new n).run ops).ctx.metrics.allocated)
+    (hH : H + A' = ((Arena.new n).run ops).ctx.metrics.totalGcs + ((Arena.new n).run ops).ctx.metrics.freed)
+    (hwoke : 0 < (Aw : Rat) - ((Arena.new n).run ops).ctx.metrics.wakeup
+                + ((Arena.new n).run ops).ctx.metrics.artificial)
+    (hr : ((Arena.new n).run ops).ctx.doCollection ((Arena.new n).run ops).root .payDebt .finishCycle fault
+            = (c', .returned))
+    (hns : c'.phase ≠ .sleep) (hne : c'.metrics.totalGcs ≠ 0) :
+    (A' : Rat) < ρ * (H : Rat) / (1 - ρ) :=
+  rho_bound_ctx_div (run_cinv n ops halive hcb) (acc_run n ops) hp hρ hA hH hwoke hr hns hne
+
+/-- **So cycles complete**: once `ρ H ≤ A' (1 - ρ)` allocations were made since the cycle woke,
+    a `cycle_debt` call returns Sleeping (the cycle finished) — or with an empty arena. -/
+theorem cycles_complete (n : Nat) (ops : List Op) (ρ : Rat) (Aw H A' : Nat) (fault : TraceFault)
+    (c' : Ctx)
+    (halive : ((Arena.new n).run ops).alive = true) (hcb : ((Arena.new n).run ops).cb = none)
+    (hp : RhoPacing ((Arena.new n).run ops).ctx.metrics.pacing ρ)
+    (hA : Aw + A' = ((Arena.new n).run ops).ctx.metrics.allocated)
+    (hH : H + A' = ((Arena.new n).run ops).ctx.metrics.totalGcs + ((Arena.new n).run ops).ctx.metrics.freed)
+    (hwoke : 0 < (Aw : Rat) - ((Arena.new n).run ops).ctx.metrics.wakeup
+                + ((Arena.new n).run ops).ctx.metrics.artificial)
+    (hr : ((Arena.new n).run ops).ctx.doCollection ((Arena.new n).run ops).root .payDebt .finishCycle fault
+            = (c', .returned))
+    (hmany : ρ * (H : Rat) ≤ (A' : Rat) * (1 - ρ)) :
+    c'.phase = .sleep ∨ c'.metrics.totalGcs = 0 := by
+  by_cases hs : c'.phase = .sleep
+  · exact Or.inl hs
+  · by_cases hz : c'.metrics.totalGcs = 0
+    · exact Or.inr hz
+    · exact absurd (rho_bound n ops ρ Aw H A' fault c' halive hcb hp hA hH hwoke hr hs hz)
+        (Rat.not_lt.mpr hmany)
+
+/-! ### Sleep is honoured -/
+
+/-- What the end of a cycle schedules: the next one wakes after
+    `max(sleep_factor × remembered, min_sleep)` allocations counted from zero (`remembered` = the
+    survivors counted by the sweep), and no artificial debt is carried over when the cycle was
+    atomic or ended without debt. -/
+theorem sleep_schedule (c : Ctx) (hasSlept : Bool) :
+    (c.enterSleep hasSlept).phase = .sleep ∧
+    (c.enterSleep hasSlept).metrics.wakeup =
+      max ((c.metrics.remembered : Rat) * c.metrics.pacing.sleepFactor) (c.metrics.pacing.minSleep : Rat) ∧
+    (c.enterSleep hasSlept).metrics.allocated = 0 ∧
+    (hasSlept = true ∨ c.metrics.allocationDebt = 0 → (c.enterSleep hasSlept).metrics.artificial = 0) := by
+  obtain ⟨h1, h2, _, _, h5⟩ := finishCycle_schedule c.metrics hasSlept
+  exact ⟨rfl, h1, h2, h5⟩
+
+/-- **Sleep is honoured**, one state.  In any sleeping state of any history with no artificial
+    debt: while the allocations made since the cycle ended do not exceed the wake-up amount every
+    debt-driven call returns at once with the state unchanged and the reported debt is zero; once
+    they exceed it (and the arena holds something) the reported debt is positive — exactly the
+    excess. -/
+theorem sleep_honoured (n : Nat) (ops : List Op) (root : List Slot) (stop : Stop) (fault : TraceFault)
+    (hs : ((Arena.new n).run ops).ctx.phase = .sleep)
+    (hart : ((Arena.new n).run ops).ctx.metrics.artificial = 0) :
+    let c := ((Arena.new n).run ops).ctx
     ((c.metrics.allocated : Rat) ≤ c.metrics.wakeup →
-      c.doCollection root .payDebt stop none = (c, .returned) ∧ c.metrics.allocationDebt = 0) ∧
-    (c.metrics.wakeup < (c.metrics.allocated : Rat) → c.metrics.totalGcs ≠ 0 → 0 < c.metrics.allocationDebt)
+      c.doCollection root .payDebt stop fault = (c, .returned) ∧ c.metrics.allocationDebt = 0) ∧
+    (c.metrics.wakeup < (c.metrics.allocated : Rat) → c.metrics.totalGcs ≠ 0 →
+      0 < c.metrics.allocationDebt ∧
+      c.metrics.allocationDebt = (c.metrics.allocated : Rat) - c.metrics.wakeup) :=
+  GcArena.sleep_honoured root stop fault hs (acc_run n ops) hart
+
+/-- **Sleep is honoured**, over time.  From any sleeping state of any history with no artificial
+    debt, over any further sequence of mutator operations (anything but `set_pacing` /
+    `adjust_debt`) and self-driven debt-driven collection calls during which the allocations do
+    not exceed the wake-up amount: the collector is still Sleeping, made no progress (no event
+    logged, schedule unchanged) and reports zero debt. -/
+theorem stays_asleep (n : Nat) (ops more : List Op)
+    (hs : ((Arena.new n).run ops).ctx.phase = .sleep)
+    (hart : ((Arena.new n).run ops).ctx.metrics.artificial = 0)
+    (hmore : ∀ op, op ∈ more → op.isSleepy = true)
+    (halive : (((Arena.new n).run ops).run more).alive = true)
+    (hfew : ((((Arena.new n).run ops).ctx.metrics.allocated + more.countP Op.isAlloc : Nat) : Rat)
+              ≤ ((Arena.new n).run ops).ctx.metrics.wakeup) :
+    (((Arena.new n).run ops).run more).ctx.phase = .sleep ∧
+    (((Arena.new n).run ops).run more).ctx.log = ((Arena.new n).run ops).ctx.log ∧
+    (((Arena.new n).run ops).run more).ctx.metrics.wakeup = ((Arena.new n).run ops).ctx.metrics.wakeup ∧
+    (((Arena.new n).run ops).run more).ctx.metrics.allocationDebt = 0 := by
+  have hal0 : ((Arena.new n).run ops).alive = true := by
+    cases hx : ((Arena.new n).run ops).alive with
+    | true => rfl
+    | false => rw [run_dead hx] at halive; rw [hx] at halive; cases halive
+  obtain ⟨r1, r2, r3, _, _, r6⟩ :=
+    GcArena.stays_asleep more _ (inv_run n ops hal0) hs hart hmore halive hfew
+  exact ⟨r1, r2, r3, r6⟩
 
 /-! ### Non-vacuity -/
 
@@ -81,5 +269,59 @@ def emptied : List Op := [
 example : ((Arena.new 1).run emptied).ctx.phase = .sweep := by decide
 example : ((Arena.new 1).run emptied).ctx.metrics.totalGcs = 0 := by decide
 example : ((Arena.new 1).run emptied).ctx.rest = [] := by decide
+
+/-- Pacing with `ρ = 1/2` on every path. -/
+def halfPacing : Pacing :=
+  { sleepFactor := 1, minSleep := 0, markFactor := 1/4, traceFactor := 1/4, keepFactor := 0,
+    dropFactor := 1/4, freeFactor := 1/4 }
+
+/-- Four unreachable allocations, three of them forgiven (`adjust_debt(-3)`), the cycle wakes and
+    marks; one more allocation; the sweep releases four of the five: the debt is paid with the
+    cycle unfinished. -/
+def rhoDemo : List Op := [
+  .setPacing halfPacing,
+  .enter .mutate, .alloc true [none], .alloc true [none], .alloc true [none], .alloc true [none], .leave,
+  .adjustDebt (-3),
+  .collect .cycleDebt .drop none (some [.wake, .markStep none, .markBreak]),
+  .enter .mutate, .alloc true [none], .leave,
+  .collect .cycleDebt .drop none (some [.toSweep, .sweepStep, .sweepStep, .sweepStep, .sweepStep]) ]
+
+theorem rhoDemo_metrics : ((Arena.new 1).run rhoDemo).ctx.metrics =
+    { pacing := halfPacing, totalGcs := 1, wakeup := 0, artificial := 0 + (-3), allocated := 5,
+      dropped := 4, freed := 4, marked := 0, traced := 0, remembered := 0, underflow := false } := by rfl
+
+theorem rhoDemo_no_debt : ((Arena.new 1).run rhoDemo).ctx.metrics.hasDebt = false := by
+  rw [rhoDemo_metrics]
+  simp only [Metrics.hasDebt, decide_eq_false_iff_not]
+  unfold Metrics.allocationDebt Metrics.cycleDebits Metrics.cycleCredits halfPacing
+  simp only
+  grind
+
+/-- Non-vacuity of `rho_bound`: on `rhoDemo` (`H = 4` held and `Aw = 4` counted at wake-up, `A' = 1`
+    allocation since) every hypothesis holds with `ρ = 1/2` — the call returns Sweeping with one
+    allocation left. -/
+example : ∃ (c' : Ctx),
+    ((Arena.new 1).run rhoDemo).alive = true ∧ ((Arena.new 1).run rhoDemo).cb = none ∧
+    RhoPacing ((Arena.new 1).run rhoDemo).ctx.metrics.pacing (1/2) ∧
+    4 + 1 = ((Arena.new 1).run rhoDemo).ctx.metrics.allocated ∧
+    4 + 1 = ((Arena.new 1).run rhoDemo).ctx.metrics.totalGcs + ((Arena.new 1).run rhoDemo).ctx.metrics.freed ∧
+    0 < ((4 : Nat) : Rat) - ((Arena.new 1).run rhoDemo).ctx.metrics.wakeup
+            + ((Arena.new 1).run rhoDemo).ctx.metrics.artificial ∧
+    ((Arena.new 1).run rhoDemo).ctx.doCollection ((Arena.new 1).run rhoDemo).root .payDebt .finishCycle none
+      = (c', .returned) ∧ c'.phase ≠ .sleep ∧ c'.metrics.totalGcs ≠ 0 := by
+  refine ⟨((Arena.new 1).run rhoDemo).ctx, by decide, by decide, ?_, by decide, by decide, ?_, ?_,
+    by decide, by decide⟩
+  · rw [rhoDemo_metrics]; constructor <;> (unfold halfPacing; simp only; grind)
+  · rw [rhoDemo_metrics]; simp only; grind
+  · simp [Ctx.doCollection, rhoDemo_no_debt]
+
+/-- `Pacing::DEFAULT` satisfies the hypothesis with `ρ = 0.55`. -/
+example : RhoPacing Pacing.default (55/100) := by
+  constructor <;> (unfold Pacing.default; simp only; grind)
+
+/-- Non-vacuity of the sleep theorems: a fresh arena after three allocations is asleep with no
+    artificial debt. -/
+example : ((Arena.new 1).run [.enter .mutate, .alloc true [none], .alloc true [none], .leave]).ctx.phase
+    = .sleep := by decide
 
 end GcArena.C09
